@@ -185,11 +185,15 @@ func c14Slice(p *Prog, r *Report) {
 	for _, fn := range p.PkgFuncs("ratelimit") {
 		rn := recvNamed(enclosingRoot(fn))
 		isBucketCode := false
-		if rn != nil && (rn.Obj().Name() == "tokenBucket" || rn.Obj().Name() == "TokenBucketSet") {
+		bucketT := namedRole(p, "ratelimit", "tokenBucket")
+		if rn != nil && (rn == bucketT || rn.Obj().Name() == "TokenBucketSet") {
 			isBucketCode = true
 		}
-		if fn.Name() == "NewTokenBucketSet" || fn.Name() == "newTokenBucket" {
-			isBucketCode = true
+		// constructors: package functions returning a bucket / a bucket set
+		if fn.Signature.Recv() == nil && fn.Parent() == nil && fn.Signature.Results().Len() >= 1 {
+			if res := derefNamed(fn.Signature.Results().At(0).Type()); res != nil && (res == bucketT || res.Obj().Name() == "TokenBucketSet") {
+				isBucketCode = true
+			}
 		}
 		if !isBucketCode {
 			continue
@@ -387,7 +391,7 @@ func c14Eviction(p *Prog, r *Report) {
 		}
 		r.Check(pops, "C14.R3", "collections.TTLMap.RemoveLastUsed: evicts the heap minimum", p.FuncPos(rl), "PriorityQueue.Pop", "the evicted entry is not the heap minimum")
 	}
-	if impl := p.Named("internal/holsterv4/collections", "pqImpl"); impl != nil {
+	if impl := namedRole(p, "internal/holsterv4/collections", "pqImpl"); impl != nil {
 		if less := p.MethodOf(impl, "Less"); less != nil {
 			r.Fn(FName(less))
 			okLess := false
